@@ -2,7 +2,11 @@
 
 from typing import Any, Callable, Mapping, Optional, Sequence, Type, Union, cast
 
-from .exc import ExecutionError, GraphQLSyntaxError, VariablesCoercionError
+from .exc import (
+    GraphQLSyntaxError,
+    InvalidOperationError,
+    VariablesCoercionError,
+)
 from .execution import (
     BlockingExecutor,
     Executor,
@@ -143,7 +147,9 @@ def process_graphql_query(
         )
     except VariablesCoercionError as err:
         return _abort(data=None, errors=err.errors)
-    except ExecutionError as err:
+    except InvalidOperationError as err:
+        # Operation selection failed, nothing has been executed. Any other
+        # exception comes out of a resolver and is not a response error.
         return _abort(data=None, errors=[err])
 
 
